@@ -781,6 +781,18 @@ impl TxPoolService {
             .map(|blk| blk.header().hash())
             .collect();
 
+        // The cellbase of a detached block cannot return through the pool. (Two blocks of the
+        // same height may carry the very same cellbase: then its outputs are still there.)
+        let attached_cellbases: HashSet<Byte32> = attached_blocks
+            .iter()
+            .filter_map(|blk| blk.transactions().first().map(|tx| tx.hash()))
+            .collect();
+        let detached_cellbases: Vec<TransactionView> = detached_blocks
+            .iter()
+            .filter_map(|blk| blk.transactions().first().cloned())
+            .filter(|tx| !attached_cellbases.contains(&tx.hash()))
+            .collect();
+
         for blk in detached_blocks {
             detached.extend(blk.transactions().into_iter().skip(1))
         }
@@ -814,6 +826,14 @@ impl TxPoolService {
             // notice: readd_detached_tx don't update cache
             self.readd_detached_tx(&mut tx_pool, retain, fetched_cache)
                 .await;
+
+            // pooled transactions built on the reward cell of a detached block have lost their
+            // input for good
+            for cellbase in &detached_cellbases {
+                for (entry, reject) in tx_pool.pool_map.remove_children_of(cellbase) {
+                    self.callbacks.call_reject(&mut tx_pool, &entry, reject);
+                }
+            }
         }
 
         self.remove_orphan_txs_by_attach(&attached).await;
